@@ -5,10 +5,10 @@ import re
 import z3
 
 from mirsym import mir
-from mirsym.core import Adt, Cell, Opaque, Panic, PMap, PVec, Ref, SymStr, Tup, Unsupported, dv, StrSort, is_sym
+from mirsym.core import Adt, Cell, Opaque, Panic, PMap, PVec, Ref, SB, SymStr, Tup, Unsupported, dv, StrSort, is_sym
 from mirsym.models import BASE_MODELS, val_eq
 from mirsym.runner import Check, Inconclusive, replay
-from props import httpmodel
+from props import httpmodel, strmodel
 from props.httpmodel import HMap, HV, JsonText, Response, hv_ok
 
 JSON_KINDS = {'HttpResponseCreated': 201, 'HttpResponseAccepted': 202, 'HttpResponseOk': 200}
@@ -80,6 +80,107 @@ MODELS = [
 ]
 
 
+# ------------------------------------------------------------------------------------------ to_map.rs executed from MIR
+class SerStruct:
+    """a value of a `#[derive(Serialize)] struct` with named fields: [(key, kind, value)], kind in str | u32 | bool | none | some | seq | struct"""
+    def __init__(self, fields): self.fields = fields
+    def __repr__(self): return f'SerStruct{[(k, kind) for k, kind, _ in self.fields]}'
+
+
+class SerValue:
+    def __init__(self, kind, value=None): self.kind, self.value = kind, value
+    def __repr__(self): return f'SerValue({self.kind})'
+
+
+def serializer_fn(ex, ser, method, ty=None):
+    """the method of the serde::Serializer / SerializeStruct impl (in to_map.rs) for the serializer value at hand"""
+    s = dv(ser)
+    if ty is None: ty = s.ty if isinstance(s, Adt) else None
+    if ty is None: raise Unsupported(f'serializer {s!r}')
+    cands = [n for n in ex.fns if re.search(r'to_map::<impl at [^>]*>::' + method + '$', n) and re.search(r'(^|[^\w])' + ty + r'\b', ex.fns[n].locals.get('_1', ''))]
+    if len(cands) != 1: raise Unsupported(f'cannot locate {ty}::{method}: {cands}')
+    return cands[0]
+
+
+def m_derived_serialize(ex, args, callee):
+    """what `#[derive(Serialize)]` expands to (serde's documented data model): a struct with named fields announces itself with
+    serialize_struct, hands every field in declaration order to SerializeStruct::serialize_field and finishes with end(); a String is
+    serialize_str, an integer serialize_<ty>, Option::None serialize_none, Some(v) serialize_some(&v), a Vec serialize_seq"""
+    v, ser = dv(args[0]), args[1]
+    sty = re.search(r'serialize::<&mut (?:\w+::)*(\w+)', callee).group(1)
+    def sfn(ex, ser, method): return serializer_fn(ex, ser, method, sty if ser is args[1] else None)
+    if isinstance(v, SymStr) or isinstance(v, str): v = SerValue('str', v)
+    if isinstance(v, SerStruct):
+        r = ex.call_fn(sfn(ex, ser, 'serialize_struct'), [ser, 'Headers', len(v.fields)])
+        if r.discr == 1: return r
+        st = Cell(ex.payload(r))
+        F_field, F_end = sfn(ex, st.v, 'serialize_field'), sfn(ex, st.v, 'end')
+        for key, kind, val in v.fields:
+            r = ex.call_fn(F_field, [Ref(st), key, Ref(Cell(SerValue(kind, val)))])
+            if r.discr == 1: return r
+        return ex.call_fn(F_end, [st.v])
+    if isinstance(v, SerValue):
+        if v.kind == 'str': return ex.call_fn(sfn(ex, ser, 'serialize_str'), [ser, v.value])
+        if v.kind in ('u32', 'bool'): return ex.call_fn(sfn(ex, ser, 'serialize_' + v.kind), [ser, v.value])
+        if v.kind == 'none': return ex.call_fn(sfn(ex, ser, 'serialize_none'), [ser])
+        if v.kind == 'some': return ex.call_fn(sfn(ex, ser, 'serialize_some'), [ser, Ref(Cell(v.value))])
+        if v.kind == 'seq': return ex.call_fn(sfn(ex, ser, 'serialize_seq'), [ser, ex.some(1)])
+        if v.kind == 'struct': return ex.call_fn(sfn(ex, ser, 'serialize_struct'), [ser, 'Inner', 1])
+    raise Unsupported(f'derived Serialize of {v!r}')
+
+
+def to_map_real(chk, ex):
+    """to_map.rs: a struct of string fields becomes exactly the map field-name -> value (every field, empty values included); anything
+    that is not a flat struct of strings is an error"""
+    F = mir.find(ex.fns, r'^(to_map::)?to_map$')
+    a, b_ = sstr('header_value_a'), sstr('header_value_b')
+    shapes = [('empty-struct', [], True), ('one', [('x-a', 'str', a)], True), ('two', [('x-a', 'str', a), ('x-b', 'str', b_)], True), ('two-swapped', [('x-b', 'str', b_), ('x-a', 'str', a)], True),
+              ('literal-empty', [('x-a', 'str', ''), ('x-b', 'str', b_)], True),
+              ('number', [('x-a', 'str', a), ('x-n', 'u32', z3.BitVec('n', 32))], False), ('bool', [('x-f', 'bool', z3.Bool('flag'))], False),
+              ('none', [('x-a', 'str', a), ('x-o', 'none', None)], False), ('some', [('x-o', 'some', SerValue('str', b_))], False), ('seq', [('x-s', 'seq', None)], False),
+              ('nested', [('x-i', 'struct', None)], False)]
+    local = [(r'^<T as Serialize>::serialize::<', m_derived_serialize)]
+    for name, fields, flat in shapes:
+        saved = ex.models
+        ex.models = local + [m for m in ex.models if not ('to_map' in m[0] and len(m) > 2)]
+        try:
+            outs = ex.explore(lambda ex: ex.call_fn(F, [Ref(Cell(SerStruct(fields)))]), [])
+        except Unsupported as e:
+            ex.unsupported_paths.append(f'to_map/{name}: {e}'); continue
+        finally:
+            ex.models = saved
+        chk.paths += len(outs)
+        if not outs: raise Inconclusive(f'vacuity: to_map has no path for {name}; {ex.unsupported_paths[-2:]}')
+        for pc, (k, r) in outs:
+            if k != 'ok':
+                m = chk.prove(f'to_map/{name}/no-panic', pc, z3.BoolVal(True))
+                if m is not None: chk.mismatches.append(f'to_map panics on {name}: {r}')
+                continue
+            if flat:
+                good = r.discr == 0 and isinstance(dv(ex.payload(r)), PMap)
+                if good:
+                    got = {k_: dv(c.v) for k_, c in dv(ex.payload(r)).items}
+                    good = set(got) == {k_ for k_, _, _ in fields} and all((got[k_] is v) or (isinstance(v, SymStr) and isinstance(got[k_], SymStr) and got[k_].term.eq(v.term)) or
+                                                                        (isinstance(v, str) and got[k_] == v) for k_, _, v in fields)
+                m = chk.prove(f'to_map/{name}/every-field-with-its-value', pc, z3.BoolVal(not good))
+                if m is not None:
+                    from mirsym.models import StrLen
+                    vals = []
+                    for k_, _, v in fields:
+                        if isinstance(v, str): vals.append(v)
+                        else:
+                            L = m.eval(StrLen(v.term), model_completion=True).as_long()
+                            vals.append('v' * min(L, 8))
+                    case = {'op': 'response_headers', 'declared': [k_ for k_, _, _ in fields][:2], 'explicit': [], 'declared_values': vals[:2]}
+                    if len(fields) == 2 and fields[0][0] == 'x-b': case['declared_values'] = vals[::-1]; case['declared'] = ['x-a', 'x-b']
+                    nat = replay([case])[0]
+                    chk.counterexample(f'to_map({name}) returned {r}; declared headers {list(zip(case["declared"], case["declared_values"]))} -> native {nat}', case,
+                                       not nat.get('as_specified', False), role='to_map')
+            else:
+                m = chk.prove(f'to_map/{name}/refused', pc, z3.BoolVal(r.discr != 1))
+                if m is not None: chk.mismatches.append(f'to_map accepts a header struct with a non-string field ({name}): {r} (not reachable through a compiled endpoint: confirmed only symbolically)')
+
+
 def body_of(resp):
     return resp.body.payload if isinstance(resp.body, Opaque) and resp.body.tag == 'body' else resp.body
 
@@ -142,37 +243,62 @@ def run(tier, replay_file=None):
 
     # ---- redirects: constructor validates Location, response carries it
     F_to_result = [n for n in f if re.search(r'handler::<impl at [^>]*>::to_result$', n) and 'HttpResponseHeaders' in f[n].locals.get('_1', '')][0]
-    loc = sstr('location')
     tmf = z3.Bool('to_map_fails')
+    # the location either opaque (any text; legality = an uninterpreted predicate) or as bytes (<= NLOC ASCII bytes; legality = the http
+    # crate's byte rule), so that a hand-written validity test that differs from HeaderValue's at some byte is seen
+    NLOC = 2 if tier == 'quick' else 3
+    locs_ = [sstr('location')] + [SB([z3.BitVec(f'loc{i}', 8) for i in range(n_)]) for n_ in range(NLOC + 1)]
     for fn, code in REDIRECTS.items():
+      for loc in locs_:
         F = mir.find(f, r'(^|::)' + fn + '$')
+        bounded = isinstance(loc, SB)
+        legal = httpmodel.hv_bytes_ok(loc.bs) if bounded else hv_ok(loc.term)
+        base_l = [z3.ULT(b, 128) for b in loc.bs] if bounded else []
+        same = (lambda v: v is loc) if bounded else (lambda v: isinstance(v, SymStr) and v.term.eq(loc.term))
+        tagf = fn + (f'/bytes{len(loc.bs)}' if bounded else '')
         def h(ex):
             Env.to_map_fails = False
             r = ex.call_fn(F, [loc])
             if r.discr == 1: return ('ctor-err', httpmodel.status_of(ex, ex.payload(r)), ex.payload(r))
             return ('resp', ex.call_fn(F_to_result, [ex.payload(r)]))
-        outs = ex.explore(h, [])
+        saved = ex.models
+        if bounded: ex.models = strmodel.MODELS + ex.models
+        try:
+            outs = ex.explore(h, base_l)
+        except Unsupported as e:
+            # the opaque variant cannot follow byte-level code; the bounded variants below can (fail closed if they cannot either)
+            if bounded: raise
+            ex.unsupported_paths.append(f'{tagf}: {e}'); outs = []
+        finally:
+            ex.models = saved
         chk.paths += len(outs)
         seen = set()
+        def rep(m, what):
+            if m is None: return
+            if not bounded: report(chk, m, fn, what); return
+            text = bytes(m.eval(b, model_completion=True).as_long() for b in loc.bs).decode('ascii')
+            case = {'op': 'response', 'kind': fn, 'location': text}
+            nat = replay([case])[0]
+            chk.counterexample(f'{what}; location {text!r} -> native {nat}', case, not nat.get('as_specified', False), role='response:' + fn + ':bytes')
         for pc, (k, r) in outs:
             if k != 'ok':
-                m = chk.prove(f'{fn}/no-panic', pc, z3.BoolVal(True)); report(chk, m, fn, f'{fn} panicked: {r}'); continue
+                m = chk.prove(f'{tagf}/no-panic', pc, z3.BoolVal(True), extra=base_l); rep(m, f'{fn} panicked: {r}'); continue
             seen.add(r[0])
             if r[0] == 'ctor-err':
                 st = r[1]
-                m = chk.prove(f'{fn}/refused-only-if-location-illegal', pc, z3.Or(hv_ok(loc.term), z3.BoolVal(not (isinstance(st, int) and 500 <= st <= 599))))
-                report(chk, m, fn, f'{fn} refused a legal location ({st})'); continue
+                m = chk.prove(f'{tagf}/refused-only-if-location-illegal', pc, z3.Or(legal, z3.BoolVal(not (isinstance(st, int) and 500 <= st <= 599))), extra=base_l)
+                rep(m, f'{fn} refused a legal location ({st})'); continue
             rr = r[1]
             if rr.discr == 1:
-                m = chk.prove(f'{fn}/legal-location-is-sent', pc, z3.BoolVal(True))
-                report(chk, m, fn, f'{fn}: to_result failed for an accepted location: {rr}'); continue
+                m = chk.prove(f'{tagf}/legal-location-is-sent', pc, z3.BoolVal(True), extra=base_l)
+                rep(m, f'{fn}: to_result failed for an accepted location: {rr}'); continue
             resp = ex.payload(rr)
             locs = [v.content for n, v in resp.headers.entries if n == 'location']
-            good = resp.status == code and body_of(resp) is None and len(locs) == 1 and isinstance(locs[0], SymStr) and locs[0].term.eq(loc.term) \
-                and len(resp.headers.entries) == 1
-            m = chk.prove(f'{fn}/status-location-empty-body', pc, z3.Or(z3.BoolVal(not good), z3.Not(hv_ok(loc.term))))
-            report(chk, m, fn, f'{fn} produced {resp}')
-        if seen != {'ctor-err', 'resp'}: raise Inconclusive(f'vacuity: {fn} outcomes {seen}; unsupported: {ex.unsupported_paths[-2:]}')
+            good = resp.status == code and body_of(resp) is None and len(locs) == 1 and same(dv(locs[0])) and len(resp.headers.entries) == 1
+            m = chk.prove(f'{tagf}/status-location-empty-body', pc, z3.Or(z3.BoolVal(not good), z3.Not(legal)), extra=base_l)
+            rep(m, f'{fn} produced {resp}')
+        if not bounded and seen != {'ctor-err', 'resp'}: chk.mismatches.append(f'vacuity: {fn} outcomes {seen} for an opaque location; unsupported: {ex.unsupported_paths[-2:]}')
+        if bounded and 'resp' not in seen: raise Inconclusive(f'vacuity: {tagf} never answers; unsupported: {ex.unsupported_paths[-2:]}')
 
     # ---- declared + explicit headers
     names = ['x-a', 'x-b']
@@ -220,6 +346,7 @@ def run(tier, replay_file=None):
             m = chk.prove(f'{tag}/declared-sent-explicit-override', pc, z3.BoolVal(not good), extra=base)
             report_headers(chk, m, declared, explicit, f'headers sent: {got}; declared {declared}, explicit {explicit}')
 
+    to_map_real(chk, ex)
     witnesses(chk)
     return chk.finish('one obligation per (response kind / header plan, execution path, clause)')
 
@@ -240,7 +367,10 @@ def report_headers(chk, m, declared, explicit, what):
 
 def witnesses(chk):
     cases = [{'op': 'response', 'kind': k} for k in list(JSON_KINDS) + list(EMPTY_KINDS) + list(REDIRECTS)] + \
-            [{'op': 'response', 'kind': 'http_response_found', 'location': 'bad\nlocation'}] + \
+            [{'op': 'response', 'kind': 'http_response_found', 'location': 'bad\nlocation'}, {'op': 'response', 'kind': 'http_response_see_other', 'location': '/a\tb'},
+             {'op': 'response', 'kind': 'http_response_temporary_redirect', 'location': '/caf\u00e9'}, {'op': 'response', 'kind': 'http_response_found', 'location': 'x\x7f'},
+             {'op': 'response_headers', 'declared': ['x-a', 'x-b'], 'explicit': [], 'declared_values': ['', 'v']},
+             {'op': 'response_headers', 'declared': ['x-a'], 'explicit': ['x-c'], 'declared_values': ['a\tb']}] + \
             [{'op': 'response_headers', 'declared': d, 'explicit': e} for d, e in
              [([], []), (['x-a'], []), (['x-a'], ['x-a']), (['x-a', 'x-b'], ['x-b', 'x-c']), (['x-a'], ['x-a', 'x-a'])]]
     res = replay(cases)
